@@ -65,6 +65,11 @@ func main() {
 		}
 	case "oracle":
 		oracleServer()
+	case "ids":
+		n, _ := strconv.Atoi(os.Args[2])
+		w, _ := strconv.Atoi(os.Args[3])
+		out.Flush()
+		runIds(n, w)
 	default:
 		fmt.Fprintln(os.Stderr, "unknown command", os.Args[1])
 		os.Exit(2)
